@@ -12,6 +12,7 @@ tools/rs2lean_fn.py — regenerates Lean definitions from the SOURCE TEXT of sel
   fn:lll      /repo/yui-matrix/src/dense/lll.rs                    -> lean/Yuiv/Gen/LllFn.lean      (Props/C10Gen.lean)
   fn:homcalc  /repo/yui-homology/src/utils/homology_calc.rs        -> lean/Yuiv/Gen/HomCalcFn.lean  (Props/C07Gen.lean)
   fn:triang   /repo/yui-matrix/src/sparse/triang.rs                -> lean/Yuiv/Gen/TriangFn.lean   (Props/C12Gen.lean)
+  fn:spmat    /repo/yui-matrix/src/sparse/sp_mat.rs                -> lean/Yuiv/Gen/SpMatFn.lean    (Props/C13Gen.lean)
 
 Additions for fn:misc / fn:snf (see the target entries in TARGETS and Yuiv/Model/RustIter.lean, RustDense.lean):
 free functions of a file (`free_fns`), closures as auxiliary definitions (captured variables become parameters),
@@ -81,7 +82,7 @@ Semantics emitted
     on fuel (`Res.err` when it runs out): the constant `loopFuel`, or — target option `fuel_param` — an explicit first
     argument `fuel` of every function that (transitively) contains a loop.
 
-Usage: rs2lean_fn.py [fn:bitseq|fn:ratio|fn:intext|fn:qint|fn:ff|fn:misc|fn:snf|fn:lll|fn:homcalc|fn:triang]... [--src FILE]... [--out FILE]   (none = all)
+Usage: rs2lean_fn.py [fn:bitseq|fn:ratio|fn:intext|fn:qint|fn:ff|fn:misc|fn:snf|fn:lll|fn:homcalc|fn:triang|fn:spmat]... [--src FILE]... [--out FILE]   (none = all)
   `--src` (once per source file of the target, in its order) and `--out` need exactly one target.
 Exit status 0: every selected generated file is up to date or was rewritten; 1: for some target something in a
 REQUIRED function (or in the item structure) is outside the subset — `rs2lean_fn: cannot translate: <what>` is printed
@@ -258,6 +259,26 @@ TARGETS = {
                  [("triang", None, n) for n in ("inv_triangular", "solve_triangular", "solve_triangular_left",
                                                 "solve_triangular_vec", "solve_triangular_s", "_solve_triangular",
                                                 "collect_diag", "copy_into")]),
+    "spmat": dict(
+        src="/repo/yui-matrix/src/sparse/sp_mat.rs", out="SpMatFn.lean", ns="Yuiv.GenSpMat", scalar="K13",
+        macros=False, fuel_param=True, nat_usize=True, sp13=True, no_derive=True,
+        newtype_structs={"SpMat": "inner"}, forlist_fn="Sp.forList", enumerate_fn="Sp.enumerate",
+        imports=["Yuiv.Model.Res", "Yuiv.Model.RustArith", "Yuiv.Model.RustRing", "Yuiv.Model.RustIter",
+                 "Yuiv.Model.RustDense", "Yuiv.Model.RustSp"],
+        blurb=["The index-remapping and assembly functions of `impl SpMat<R>` (yui-matrix/src/sparse/sp_mat.rs): `from_entries`,",
+               "`from_col_vecs`, `extract`, `permute(_rows/_cols)`, `submat(_rows/_cols)`, `divide4`, `combine_blocks`, `concat`,",
+               "`stack`, `extend_cols`, `from_row_perm`, `from_col_perm`.  Cargo features are OFF (`serde` impls dropped).",
+               "`R` is a type with `[Zero R] [One R] [Add R] [DecidableEq R]` (`is_zero` is `= 0`); `SpMat<R>` and the",
+               "`CscMatrix<R>` it wraps are both the model's `C13.SpMat R` (the field `inner` is the identity), `SpVec<R>` is",
+               "`C13.SpVec R`, `PermView` is `C13.Perm`, `CooMatrix<R>` is `Sp.Coo R` (shape + pushed triplets), `Range<usize>` a",
+               "pair, `Vec<T>` a list, `usize` an unbounded `Nat` with checked subtraction; a parameter `F: Fn(..) -> T` is a",
+               "`Res`-valued Lean function (closures passed for it may panic); local closures are inlined; the nalgebra",
+               "kernels (`triplet_iter`, `CooMatrix::push`, COO→CSC, `disassemble`, `try_from_csc_data`) are the functions of",
+               "Yuiv/Model/RustSp.lean, i.e. those of the hand model; panics are `Res.panic`.",
+               "`Yuiv/Props/C13Gen.lean` proves them equal to the hand-written model `Yuiv/Model/C13.lean`."],
+        required=_req("SpMat", ("extract", "permute", "permute_rows", "permute_cols", "submat", "submat_rows",
+                                "submat_cols", "from_entries", "combine_blocks", "concat", "stack", "extend_cols",
+                                "from_col_vecs", "divide4", "from_row_perm", "from_col_perm"))),
     "intext": dict(
         src=["/repo/yui/src/misc/int_ext.rs", "/repo/yui/src/abst/euc_ring.rs"], out="IntExtFn.lean",
         ns="Yuiv.GenIntExt", scalar="Z", macros=True, fuel_param=True,
@@ -278,6 +299,7 @@ SCALAR_BOUNDS = {"EucRing", "EucRingOps", "Integer", "IntOps", "Ring", "RingOps"
                  "AddMonOps", "AddGrpOps", "MonOps"}
 SCALAR_BOUNDS_FF = {"ToPrimitive"}
 SCALAR_BOUNDS_LLL = {"LLLRing", "LLLRingOps", "DivRound"}
+SCALAR_BOUNDS_SP = {"Scalar", "ClosedAddAssign", "ClosedSubAssign", "ClosedMulAssign"}
 
 
 class Unsupported(Exception):
@@ -807,6 +829,9 @@ class Parser:
     def path(self):
         segs = [self.ident()]
         while self.at("::"):
+            if Parser.turbofish and self.at("<", 1):
+                self.next(); self.generic_args()
+                continue
             if self.at("<", 1): raise Unsupported(f"generic arguments in an expression path (line {self.peek().line})")
             self.next()
             segs.append(self.ident())
@@ -1009,15 +1034,18 @@ class Parser:
         t = self.next()
         params = []
         if t.val == "|":
+            def tpat():
+                self.expect("("); comps = []
+                while not self.at(")"):
+                    self.eat("&")
+                    if self.at("("): comps.append(tpat())
+                    else: comps.append("_" if self.eat("_") else self.ident())
+                    if not self.eat(","): break
+                self.expect(")")
+                return tuple(comps)
             while not self.at("|"):
-                if self.at("("):                      # flat tuple pattern `(_, a)` / `(&i, d)`
-                    self.next(); comps = []
-                    while not self.at(")"):
-                        self.eat("&")
-                        comps.append("_" if self.eat("_") else self.ident())
-                        if not self.eat(","): break
-                    self.expect(")")
-                    params.append(tuple(comps))
+                if self.at("("):                      # tuple pattern `(_, a)` / `(&i, d)` / `(x, (di, dj))`
+                    params.append(tpat())
                 else:
                     self.eat("&")
                     params.append("_" if self.eat("_") else self.ident())
@@ -1187,6 +1215,13 @@ def parse_items(toks, mod=None, macros=False, depth=0, modname=None):
         if t.kind != "id":
             raise Unsupported(f"unexpected `{t.val}` at item level (line {t.line})")
         kw = t.val
+        if p.cfg_off is not None and kw == "impl":
+            while not p.at("{"):
+                if p.peek().kind == "eof": raise Unsupported(f"unterminated impl (line {t.line})")
+                p.next()
+            p.skip_balanced()
+            mod.notes.append(f"impl at line {t.line}: dropped (feature \"{p.cfg_off}\" is off)")
+            continue
         if p.cfg_off is not None and kw in ("fn", "use"):
             p.next()
             nm_ = p.peek().val
@@ -1448,6 +1483,10 @@ def parse_impl(p, mod):
             name = p.ident(); p.expect("="); assoc[name] = p.ty(); p.expect(";")
             continue
         if p.eat("unsafe"): raise Unsupported(f"unsafe fn (line {t.line})")
+        if t.kind == "id" and p.at("!", 1) and (p.at("{", 2) or p.at("(", 2)):       # macro invocation as an impl item
+            nm_ = p.ident(); p.next(); p.skip_balanced(); p.eat(";")
+            mod.notes.append(f"{nm_}! inside `impl {trait + ' for ' if trait else ''}{tyname}`: not expanded")
+            continue
         if not p.at("fn"):
             raise Unsupported(f"impl item `{t.val}` (line {t.line})")
         p.next()
@@ -1611,6 +1650,8 @@ class Translator:
         self.uses_opaque = []
         self.for_ctx = None
         self.nty = 0
+        self.newtypes = set(self.cfg.get("newtype_structs", {}))
+        self.local_closures = {}
         self.cur_rest = None    # (following statements, tail) of the statement being translated
         TYBIND.clear()
         if self.cfg.get("const_generics"): self.tag_const_impls()
@@ -1619,7 +1660,18 @@ class Translator:
     def lean_ty(self, t):
         t = resolve_ty(t)
         if "?" in t: raise Unsupported("the element type of an empty `vec![]` is never determined")
-        if t == "S": return "α"
+        if t == "K13" and self.scalar == "K13": return "R"
+        if t == "PM": return "(C13.SpMat R)"
+        if t == "PV": return "(C13.SpVec R)"
+        if t == "PP": return "C13.Perm"
+        if t == "CO": return "(Sp.Coo R)"
+        if t == "RG": return "(Nat × Nat)"
+        mf = re.fullmatch(r"FN<(.*)->(.*)>", t)
+        if mf:
+            args_ = split_top(mf.group(1)) if mf.group(1) else []
+            return "(" + " → ".join([self.lean_ty(self.norm_ty(a_, self.cur)) for a_ in args_] +
+                                    ["Res " + self.lean_ty(self.norm_ty(mf.group(2), self.cur))]) + ")"
+        if t == "S" and self.scalar == "S": return "α"
         if t == "SM": return "(C12.SpMat α)"
         if t == "SV": return "(SVec α)"
         if t == "VS": return "(Array α)"
@@ -1651,12 +1703,30 @@ class Translator:
     def norm_ty(self, t, fn):
         """normalise a parsed type string in the context of fn's impl"""
         g = self.generics_of(fn)
-        if t in g["aliases"]: return g["aliases"][t]
+        if t in g["aliases"]:
+            al = g["aliases"][t]
+            if self.cfg.get("sp13") and al.startswith("List<") and al != f"List<{t}>":
+                return "List<" + self.norm_ty(al[5:-1], fn) + ">"
+            return al
         ma = re.fullmatch(r"\[(.*);(\d+)\]", t)
         if ma and int(ma.group(2)) <= 8:            # a fixed-size array is a tuple
             return "(" + ",".join([self.norm_ty(ma.group(1), fn)] * int(ma.group(2))) + ")"
         if re.fullmatch(r"M<\w+,\w+>", t): return t
         if self.cfg.get("nat_usize") and t == "usize": return "usize"
+        if self.cfg.get("sp13"):
+            if t in ("PM", "PV", "PP", "CO", "RG", "K13") or t.startswith("FN<"): return t
+            if t in ("PermView", "sprs::PermView", "PermOwned", "sprs::PermOwned"): return "PP"
+            if t == "Range<usize>": return "RG"
+            ms = re.fullmatch(r"(SpMat|CscMatrix|SpVec|CooMatrix|Vec)<(.+)>", t) or re.fullmatch(r"\[()([^;]+)\]", t)
+            if ms:
+                inner = self.norm_ty(ms.group(2), fn)
+                kind = ms.group(1) or "Vec"
+                if kind in ("SpMat", "CscMatrix") and inner == "K13": return "PM"
+                if kind == "SpVec" and inner == "K13": return "PV"
+                if kind == "CooMatrix" and inner == "K13": return "CO"
+                if kind == "Vec": return f"List<{inner}>"
+            if t == "Self" and fn.ty in self.cfg.get("newtype_structs", {}): return "PM"
+            if t in self.cfg.get("newtype_structs", {}): return "PM"
         if self.cfg.get("csc"):
             if t in ("SM", "SV", "VS", "S"): return t
             mc = re.fullmatch(r"(SpMat|SpVec|Vec)<(.+)>", t) or re.fullmatch(r"\[()(.+)\]", t)
@@ -1819,7 +1889,7 @@ class Translator:
 
     def translate_fn(self, f):
         if f.generic and not (f.generic_is_mut and self.cfg.get("mut_params")): raise Unsupported(f.generic)
-        if f.ty not in self.types and not getattr(f, "is_trait_default", False) and \
+        if f.ty not in self.types and not getattr(f, "is_trait_default", False) and f.ty not in self.newtypes and \
                 not getattr(f, "is_free", False) and f.ty not in self.cfg.get("scalar_types", []):
             raise Unsupported(f"impl for unknown type {f.ty}")
         self.cur, self.ntmp, self.nloop, self.aux = f, 0, 0, []
@@ -1931,25 +2001,41 @@ class Translator:
             for tp in f.tparams:
                 bs = [re.sub(r"<.*$", "", b) for t, b in f.bounds if t == tp and not b.startswith("'")]
                 if all(b in SCALAR_BOUNDS or (self.cfg.get("int32") and b in SCALAR_BOUNDS_FF) or
-                       (self.cfg.get("lmat") and b in SCALAR_BOUNDS_LLL) for b in bs):
+                       (self.cfg.get("lmat") and b in SCALAR_BOUNDS_LLL) or
+                       (self.cfg.get("sp13") and b in SCALAR_BOUNDS_SP) for b in bs):
                     scal.add(tp)
         tparams = [t for t in f.tparams if t not in scal]
         bounds = [(t, b) for t, b in f.bounds if t not in scal]
         for tp in scal: self.aliases[tp] = self.scalar
         if getattr(f, "ty", None) in self.cfg.get("scalar_types", []): self.aliases["Self"] = "Z"
+        if self.cfg.get("sp13"):
+            # `F: Fn(A, B) -> C`: a function parameter (always `Res`-valued in Lean: the closure passed may panic)
+            for tp in list(tparams):
+                bs = [b for t, b in bounds if t == tp]
+                m_ = re.fullmatch(r"Fn\((.*)\)->(.*)", bs[0]) if len(bs) == 1 else None
+                if m_:
+                    args_ = [x.strip() for x in m_.group(1).split(" , ")] if m_.group(1).strip() else []
+                    self.aliases[tp] = "FN<" + ",".join(args_) + "->" + m_.group(2) + ">"
+                    tparams.remove(tp)
+                    bounds = [(t, b) for t, b in bounds if t != tp]
         f = N("fnview", tparams=tparams, bounds=bounds)
         iters = {}
+        itre = r"IntoIterator<Item=(.+)>" if self.cfg.get("sp13") else r"IntoIterator<Item=(\w+)>"
         for t, b in f.bounds:
-            m = re.fullmatch(r"IntoIterator<Item=(\w+)>", b)
+            m = re.fullmatch(itre, b)
             if t in f.tparams and m:
                 iters[t] = m.group(1)
         self.tvars = [t for t in f.tparams if t not in iters]
         for t, x in iters.items():
+            if self.cfg.get("sp13"):
+                for tp in scal: x = re.sub(r"(?<![\w])" + re.escape(tp) + r"(?![\w])", self.scalar, x)
+                self.aliases[t] = f"List<{x}>"
+                continue
             if x not in self.tvars and x not in self.types and x not in ("u64", "usize", "bool"):
                 raise Unsupported(f"iterator item type {x}")
             self.aliases[t] = f"List<{x}>"
         for t, b in f.bounds:
-            if t in iters and re.fullmatch(r"IntoIterator<Item=(\w+)>", b): continue
+            if t in iters and re.fullmatch(itre, b): continue
             m = re.fullmatch(r"From<(\w+)>", b)
             if t in self.types and m and m.group(1) in self.tvars:
                 self.convs[(t, m.group(1))] = f"{t}_from_{m.group(1)}"
@@ -1962,11 +2048,14 @@ class Translator:
         parts += [f"({n} : {a} → {u})" for (u, a), n in self.convs.items()]
         if self.scalar == "S" and scal:
             parts = ["{α : Type} [C12.Scal α]"] + parts
+        if self.scalar == "K13" and scal:
+            parts = ["{R : Type} [Zero R] [One R] [Add R] [DecidableEq R]"] + parts
         if self.cfg.get("eops"):
             parts = ["{α : Type} {m n : Nat} (e : C09.EOps α)"] + (["(dbg : Bool)"] if self.cfg.get("dbg_param") else []) + parts
         self.gsig = " ".join(parts)
         self.gargs = (["(m := m)", "(n := n)", "e"] + (["dbg"] if self.cfg.get("dbg_param") else [])
                       if self.cfg.get("eops") else []) + [n for n in self.convs.values()]
+        if self.scalar == "K13" and scal: self.gargs = ["(R := R)"] + self.gargs
 
     def fresh(self):
         self.ntmp += 1
@@ -2297,14 +2386,19 @@ class Translator:
         bound = set()
         for k_, (p_, ty) in enumerate(zip(c.params, argtys)):
             if isinstance(p_, tuple):
-                tys = split_top(ty[1:-1]) if ty.startswith("(") else []
-                if len(tys) != len(p_): raise Unsupported(f"closure pattern for an argument of type {ty} (line {c.line})")
+                def bindp(pp, ty_):
+                    tys_ = split_top(ty_[1:-1]) if ty_.startswith("(") else []
+                    if len(tys_) != len(pp): raise Unsupported(f"closure pattern for an argument of type {ty_} (line {c.line})")
+                    outp = []
+                    for n, t_ in zip(pp, tys_):
+                        if isinstance(n, tuple): outp.append(bindp(n, t_))
+                        elif n == "_": outp.append("_")
+                        else:
+                            env2[n] = (self.ident(n), t_, False); bound.add(n); outp.append(self.ident(n))
+                    return "(" + ", ".join(outp) + ")"
                 an = f"x{k_}"
                 sig.append(f"({an} : {unpar(self.lean_ty(ty))})")
-                names = [("_" if n == "_" else self.ident(n)) for n in p_]
-                pre.append(("let", "(" + ", ".join(names) + ")", an))
-                for n, t_ in zip(p_, tys):
-                    if n != "_": env2[n] = (self.ident(n), t_, False); bound.add(n)
+                pre.append(("let", bindp(p_, ty), an))
             else:
                 an = "_" if p_ == "_" else self.ident(p_)
                 sig.append(f"({an if an != '_' else 'x' + str(k_)} : {unpar(self.lean_ty(ty))})")
@@ -2312,6 +2406,7 @@ class Translator:
         used = self.used(c.body, env)
         cap = [n for n in env if n in used and n not in bound]
         self.nloop += 1
+        cnum_ = self.nloop
         cname = f"{self.lean_fn(self.cur)}_closure{self.nloop}"
         saved_fuel = self.uses_fuel
         self.uses_fuel = False
@@ -2324,7 +2419,7 @@ class Translator:
         csig = " ".join(([self.gsig] if self.gsig else []) + (["(fuel : Nat)"] if fuel_here else []) +
                         [f"({env[n][0]} : {unpar(self.lean_ty(env[n][1]))})" for n in cap] + sig)
         lret = self.lean_ty(cret)
-        lines = [f"/-- closure #{self.nloop} of `{self.cur.rust_name}` (captures: {', '.join(cap) or 'none'}) -/",
+        lines = [f"/-- closure #{cnum_} of `{self.cur.rust_name}` (captures: {', '.join(cap) or 'none'}) -/",
                  f"def {cname} {csig} : " + (f"Res {lret}" if mon else unpar(lret)) + " :="]
         lines += self.body_lines(code, "  ", mon)
         self.aux.append("\n".join(lines) + "\n")
@@ -2421,6 +2516,13 @@ class Translator:
             if self.cfg.get("csc") and st.pat is None and getattr(st, "els", None) is None:
                 r_ = self.tr_lazy_map(st, env)
                 if r_ is not None: return r_
+            if self.cfg.get("sp13") and st.pat is None and getattr(st, "els", None) is None and init.kind == "closure" \
+                    and not st.mut:
+                if self.mutated(init.body, env) or self.has_jump(init.body) or any(isinstance(p_, tuple) for p_ in init.params):
+                    raise Unsupported(f"local closure of this form (line {st.line})")
+                env[st.name] = ("<closure>", "CLOSURE", False)
+                self.local_closures[(self.cur.key, st.name)] = (init, dict(env))
+                return []
             its, term, ty = self.tr(st.init, env)
             if getattr(st, "els", None) is not None:
                 # `let Some(x) = e else { diverges }`; here the else block panics (a jumping one is handled by seq_k)
@@ -2446,6 +2548,18 @@ class Translator:
             mv = self.mutated(e, env)
             code = self.tr_block(e, env, ("vars", mv))
             return self.splice(code, self.tup(env, mv), mv)
+        if e.kind == "match" and self.cfg.get("sp13") and self.mutated(e, env) and not self.has_jump(e):
+            mv = self.mutated(e, env)
+            its, arms0 = self.match_arms(e, env)
+            pat = self.tup(env, mv)
+            codes = []
+            for cond, env2, body in arms0:
+                blk = body if body.kind == "block" else N("block", stmts=[N("expr", e=body, line=e.line)], tail=None, uses=[], fns=[])
+                codes.append((cond, self.tr_block(blk, env2, ("vars", mv))))
+            chain = codes[-1][1]
+            for cond, code in reversed(codes[:-1]):
+                chain = Code([], ("m" if (code.monadic() or chain.monadic()) else "pure", IfTerm("decide (" + cond + ")", code, chain)))
+            return its + self.splice(chain, pat, mv)
         if e.kind == "macro":
             its, term, ty = self.tr(e, env)
             return its
@@ -2470,7 +2584,7 @@ class Translator:
             if e.el is None and sc_.kind == "mcall" and sc_.name == "as_mut" and not sc_.args:
                 return self.tr_iflet_mut(e, env)
             return self.tr_iflet_stmt(e, env)
-        if e.kind == "mcall" and self.cfg.get("csc"):
+        if e.kind == "mcall" and (self.cfg.get("csc") or self.cfg.get("sp13")):
             r_ = self.tr_vec_stmt(e, env)
             if r_ is not None: return r_
         if e.kind == "mcall" and (e.name in MAT_MUT or e.name in LMAT_MUT):
@@ -2499,6 +2613,32 @@ class Translator:
 
     def tr_vec_stmt(self, e, env):
         """`v.push(x)`, `v.reverse()` on a list variable; `it.for_each(|p| body)` as a `for` loop"""
+        if e.name == "push" and len(e.args) == 3 and self.cfg.get("sp13"):
+            r0 = e.recv
+            while r0.kind == "paren": r0 = r0.e
+            if r0.kind == "path" and len(r0.segs) == 1 and r0.segs[0] in env and env[r0.segs[0]][2] and env[r0.segs[0]][1] == "CO":
+                ln = env[r0.segs[0]][0]
+                its, ts = [], []
+                for a, want in zip(e.args, ("usize", "usize", "K13")):
+                    i2, t, ty = self.tr(a, env)
+                    if not self.compat(want, ty): raise Unsupported(f"`CooMatrix::push` argument of type {ty} (line {e.line})")
+                    its += i2; ts.append(t)
+                return its + [("bind", ln, " ".join(["Sp.Coo.push", ln] + ts))]
+        if e.name in ("append", "extend") and len(e.args) == 1 and self.cfg.get("sp13"):
+            root = self.vec_place(e.recv, env)
+            if root is None: return None
+            ln, ty, _ = env[root]
+            a = e.args[0]
+            while a.kind == "paren": a = a.e
+            if a.kind == "un" and a.op == "&mut": a = a.e          # `v.append(&mut w)`: `w` is left empty (and must be dead)
+            its, t, tx = self.tr(a, env)
+            if not self.compat(resolve_ty(ty), resolve_ty(tx)): raise Unsupported(f"`{e.name}` of {tx} onto {ty} (line {e.line})")
+            if e.name == "append":
+                if not (a.kind == "path" and len(a.segs) == 1): raise Unsupported(f"`append` of this form (line {e.line})")
+                rest = self.cur_rest
+                if rest is None or a.segs[0] in (self.idents(list(rest[0])) | self.idents(rest[1])):
+                    raise Unsupported(f"`{a.segs[0]}` is used after `append` emptied it (line {e.line})")
+            return its + [("let", ln, f"{ln} ++ {t}")]
         if e.name in ("push", "reverse"):
             root = self.vec_place(e.recv, env)
             if root is None: return None
@@ -2800,6 +2940,8 @@ class Translator:
             return self.tr_index_assign(e, lhs, env)
         root, field = self.place(e.l, env)
         ln, rty, _ = env[root]
+        if field is not None and rty == "PM" and field in self.cfg.get("newtype_structs", {}).values():
+            field = None                      # `self.inner = x`: the wrapper is its field
         if field is not None:
             fty = self.field_ty(rty, field, e.line)
             cur = f"{ln}.{field}"
@@ -2938,7 +3080,7 @@ class Translator:
             return self.tr_for_rev(e, it.recv, env, K)
         elt = "usize"
         if it.kind != "range":
-            if not self.cfg.get("csc"):
+            if not (self.cfg.get("csc") or self.cfg.get("sp13")):
                 raise Unsupported(f"`continue`/`break` inside a `for` loop over a non-range (line {e.line})")
             i1, xs, txs = self.tr(it, env)
             txs = resolve_ty(txs)
@@ -2982,7 +3124,7 @@ class Translator:
         self.aux.append("\n".join(lines) + "\n")
         fcall = "(" + " ".join([fname] + self.gargs + opq + (["fuel"] if fuel_here else []) + [env[x][0] for x in ro]) + ")"
         fin = self.fresh()
-        loop_ = f"Loop.forRange {lo} {hi}" if it.kind == "range" else f"Loop.forList {xs}"
+        loop_ = f"Loop.forRange {lo} {hi}" if it.kind == "range" else f"{self.cfg.get('forlist_fn', 'Loop.forList')} {xs}"
         items = i1 + i2 + [("bind", f"({pat if st else '_'}, {fin})", f"{loop_} {fcall} {pat if st else '()'}")]
         if K is None:
             if fc["exits"]: raise Unsupported(f"jump out of a `for` loop in this position (line {e.line})")
@@ -3036,7 +3178,7 @@ class Translator:
         if it0.kind == "range" or (it0.kind == "mcall" and it0.name == "rev" and not it0.args):
             return self.tr_for_range(e, env)
         if self.has_jump(e):
-            if self.cfg.get("csc"): return self.tr_for_range(e, env)
+            if self.cfg.get("csc") or self.cfg.get("sp13"): return self.tr_for_range(e, env)
             raise Unsupported(f"`return`/`continue`/`break` inside a `for` loop (line {e.line})")
         its, it, ity = self.tr(e.it, env)
         ity = resolve_ty(ity)
@@ -3149,12 +3291,17 @@ class Translator:
                     ty_ = env[root][1]
                     if n.kind == "iflet" or ty_ in ("LM",) or re.fullmatch(r"M<\w+,\w+>", ty_ or "") or ty_ in self.mod.structs:
                         found.add(root)
-            if n.kind == "mcall" and n.name in ("push", "reverse") and self.cfg.get("csc"):
+            if n.kind == "mcall" and n.name in ("push", "reverse", "append", "extend", "pop") and \
+                    (self.cfg.get("csc") or self.cfg.get("sp13")):
                 r = n.recv
                 while r.kind == "paren": r = r.e
                 if r.kind == "path" and len(r.segs) == 1 and r.segs[0] in env and r.segs[0] not in local and \
-                        env[r.segs[0]][2] and resolve_ty(env[r.segs[0]][1] or "").startswith("List<"):
+                        env[r.segs[0]][2] and (resolve_ty(env[r.segs[0]][1] or "").startswith("List<") or env[r.segs[0]][1] == "CO"):
                     found.add(r.segs[0])
+                    if n.name == "append":
+                        a_ = n.args[0] if n.args else None
+                        while a_ is not None and a_.kind == "paren": a_ = a_.e
+                        if a_ is not None and a_.kind == "un" and a_.op == "&mut": found.discard(None)
             if n.kind == "un" and n.op == "&mut":
                 r = n.e
                 while r.kind == "paren": r = r.e
@@ -3197,6 +3344,7 @@ class Translator:
 
         def f(n):
             if n.kind == "path" and len(n.segs) == 1 and n.segs[0] in env: s.add(n.segs[0])
+            if n.kind == "call" and len(n.path) == 1 and n.path[0] in env: s.add(n.path[0])
         self.walk(node, f)
         return s
 
@@ -3206,6 +3354,28 @@ class Translator:
             raise Unsupported(f"call of {callee.rust_name} with {len(args)} arguments (line {line})")
         its, out = [], []
         for a, (pn, pt) in zip(args, callee.params):
+            ptn = resolve_ty(self.norm_ty(pt, callee))
+            a0 = a
+            while a0.kind == "paren": a0 = a0.e
+            if ptn == "RG" and a0.kind == "range":
+                i2, lo, tl = self.tr(a0.lo, env)
+                i3, hi, th = self.tr(a0.hi, env)
+                if tl not in INT64 or th not in INT64: raise Unsupported(f"range over {tl}..{th} (line {line})")
+                its += i2 + i3; out.append(f"({lo}, {hi})")
+                continue
+            if ptn.startswith("FN<") and a.kind == "closure":
+                mf = re.fullmatch(r"FN<(.*)->(.*)>", ptn)
+                ptys = [self.norm_ty(x, callee) for x in (split_top(mf.group(1)) if mf.group(1) else [])]
+                cname, cargs, cret, mon = self.closure_def(a, ptys, env)
+                want = self.norm_ty(mf.group(2), callee)
+                if not self.compat(want, cret): raise Unsupported(f"closure returning {cret} where {want} is expected (line {line})")
+                call = " ".join([cname] + cargs)
+                if mon:
+                    out.append(f"({call})")
+                else:
+                    vs = [f"a{k_}" for k_ in range(len(ptys))]
+                    out.append("(fun " + " ".join(vs) + f" => Res.ok ({call} " + " ".join(vs) + "))")
+                continue
             if pn in callee.mutparams:
                 x = a
                 while x.kind == "paren": x = x.e
@@ -3392,6 +3562,10 @@ class Translator:
                 comps = split_top(ty[1:-1])
                 if int(e.name) >= len(comps): raise Unsupported(f"tuple field .{e.name} of {ty} (line {line})")
                 return its, self.tuple_proj(t, int(e.name), len(comps)), comps[int(e.name)]
+            if ty == "RG" and e.name in ("start", "end"):
+                return its, f"{t}.{1 if e.name == 'start' else 2}", "usize"
+            if ty == "PM" and e.name in self.cfg.get("newtype_structs", {}).values():
+                return its, t, "PM"                               # the wrapped `CscMatrix`: the same Lean value
             return its, f"{t}.{self.field_name(e.name)}", self.field_ty(ty, e.name, line)
         if k == "un":
             its, t, ty = self.tr(e.e, env)
@@ -3820,6 +3994,18 @@ class Translator:
             return [("bind", r, "Res.panic")], r, "!"
         if nm == "vec" and not e.args and self.cfg.get("hom"):
             return [], "[]", "List<_>"
+        if nm == "vec" and self.cfg.get("sp13") and not getattr(e, "repeat", False):
+            if not e.args:
+                self.nty += 1
+                return [], "[]", f"List<?{self.nty}>"
+            its, ts, ty0 = [], [], None
+            for x in e.args:
+                i2, t, ty = self.tr(x, env)
+                if ty == "int": ty = "usize"
+                if ty0 is not None and not self.compat(ty0, ty): raise Unsupported(f"`vec!` of {ty0} and {ty} (line {line})")
+                ty0 = ty0 or ty
+                its += i2; ts.append(unpar(t))
+            return its, "[" + ", ".join(ts) + "]", f"List<{ty0}>"
         if nm == "vec" and not e.args and self.cfg.get("csc"):
             self.nty += 1
             return [], "[]", f"List<?{self.nty}>"
@@ -3862,6 +4048,9 @@ class Translator:
                 if ta != "HM" or tb != "HM": raise Unsupported(f"`Trans::new` on {ta}, {tb} (line {line})")
                 r = self.fresh()
                 return i1 + i2 + [("bind", r, f"HTrans.new {a} {b}")], r, "HT"
+        if self.cfg.get("sp13"):
+            r_ = self.tr_call_sp(e, env)
+            if r_ is not None: return r_
         if self.cfg.get("csc") and len(segs) == 2:
             if segs[0] == "Either" and segs[1] in ("Left", "Right") and len(e.args) == 1:
                 return self.tr(e.args[0], env)            # both alternatives are iterators over the same items: a list
@@ -3944,8 +4133,8 @@ class Translator:
                     return its, (f"({fn_} {' '.join(ts)})" if ts else fn_), rty
         if len(segs) == 2:
             a = self.cur.ty if segs[0] == "Self" else segs[0]
-            if a in self.types:
-                argt = [self.tr(x, dict(env), dry=True)[2] for x in e.args]
+            if a in self.types or a in self.newtypes:
+                argt = [("closure" if x.kind == "closure" else self.tr(x, dict(env), dry=True)[2]) for x in e.args]
                 if segs[1] == "from" and len(argt) == 1 and (a, argt[0]) in self.convs:
                     its, t, _ = self.tr(e.args[0], env)
                     return its, f"({self.convs[(a, argt[0])]} {t})", a
@@ -3958,6 +4147,165 @@ class Translator:
                     return i1 + i2, t, ty
                 return self.call_user(c, None, e.args, env, line)
         raise Unsupported(f"call of `{'::'.join(segs)}` (line {line})")
+
+    def tr_call_sp(self, e, env):
+        """calls of target option `sp13`: function-typed variables, the `CooMatrix` / `CscMatrix` / `PermView` statics"""
+        segs, line = e.path, e.line
+        if len(segs) == 1 and segs[0] in env and resolve_ty(env[segs[0]][1]).startswith("FN<"):
+            ln, fty, _ = env[segs[0]]
+            mf = re.fullmatch(r"FN<(.*)->(.*)>", fty)
+            ptys = [self.norm_ty(x, self.cur) for x in (split_top(mf.group(1)) if mf.group(1) else [])]
+            if len(ptys) != len(e.args): raise Unsupported(f"call of `{segs[0]}` with {len(e.args)} arguments (line {line})")
+            its, ts = [], []
+            for a, pt in zip(e.args, ptys):
+                i2, t, ty = self.tr(a, env)
+                if not self.compat(pt, ty): raise Unsupported(f"argument of type {ty} for `{segs[0]}` ({pt} expected) (line {line})")
+                its += i2; ts.append(t)
+            r = self.fresh()
+            return its + [("bind", r, " ".join([ln] + ts))], r, self.norm_ty(mf.group(2), self.cur)
+        if len(segs) == 1 and segs[0] in env and env[segs[0]][1] == "CLOSURE":
+            c, cenv = self.local_closures[(self.cur.key, segs[0])]
+            if len(c.params) != len(e.args): raise Unsupported(f"call of the closure `{segs[0]}` with {len(e.args)} arguments (line {line})")
+            its, env2 = [], dict(cenv)
+            for p_, a in zip(c.params, e.args):
+                i2, t, ty = self.tr(a, env)
+                if ty == "int": ty = "usize"
+                if not re.fullmatch(r"[\w.]+", t):
+                    r0 = self.fresh(); i2 = i2 + [("let", r0, t)]; t = r0
+                its += i2
+                if p_ != "_": env2[p_] = (t, ty, False)
+            i3, t, ty = self.tr(c.body, env2)
+            return its + i3, t, ty
+        if segs in (["zip"], ["std", "iter", "zip"], ["iter", "zip"]) and len(e.args) == 2 and "zip" not in env:
+            xs = [a for a in e.args]
+            for k_ in range(2):
+                while xs[k_].kind == "paren": xs[k_] = xs[k_].e
+            if all(x.kind == "tuple" and getattr(x, "array", False) for x in xs) and len(xs[0].es) == len(xs[1].es):
+                its, ps, ty0 = [], [], None
+                for a, b in zip(xs[0].es, xs[1].es):
+                    i2, ta, tya = self.tr(a, env)
+                    i3, tb, tyb = self.tr(b, env)
+                    tyb = re.sub(r"(?<![\w])int(?![\w])", "usize", tyb)
+                    ty = f"({tya},{tyb})"
+                    if ty0 is not None and not self.compat(ty0, ty): raise Unsupported(f"`zip` of arrays with items {ty0} and {ty} (line {line})")
+                    ty0 = ty0 or ty
+                    its += i2 + i3; ps.append(f"({unpar(ta)}, {unpar(tb)})")
+                return its, "[" + ", ".join(ps) + "]", f"List<{ty0}>"
+            raise Unsupported(f"`zip` of this form (line {line})")
+        if segs in (["std", "mem", "replace"], ["mem", "replace"]) and len(e.args) == 2:
+            x = e.args[0]
+            while x.kind == "paren": x = x.e
+            if not (x.kind == "un" and x.op == "&mut"): raise Unsupported(f"`mem::replace` of this form (line {line})")
+            root, field = self.place(x.e, env)
+            ln, rty, _ = env[root]
+            if field is not None and not (rty == "PM" and field in self.cfg.get("newtype_structs", {}).values()):
+                raise Unsupported(f"`mem::replace` on a field (line {line})")
+            i2, t, ty = self.tr(e.args[1], env)
+            if not self.compat(rty, ty): raise Unsupported(f"`mem::replace` of {rty} by {ty} (line {line})")
+            old = self.fresh()
+            return [("let", old, ln)] + i2 + [("let", ln, t)], old, rty
+        if len(segs) == 2 and self.aliases.get(segs[0]) == "K13" and segs[1] in ("one", "zero") and not e.args:
+            return [], "(1 : R)" if segs[1] == "one" else "(0 : R)", "K13"
+        if len(segs) != 2: return None
+        own = {"Self": self.cur.ty}.get(segs[0], segs[0])
+        key = (own, segs[1])
+        table = {("CooMatrix", "new"): ("Sp.Coo.new", ["usize", "usize"], "CO", False),
+                 ("CscMatrix", "zeros"): ("C13.SpMat.zero", ["usize", "usize"], "PM", False),
+                 ("CscMatrix", "from"): ("Sp.Coo.to_csc", ["CO"], "PM", False),
+                 ("CscMatrix", "try_from_csc_data"): ("Sp.try_from_csc_data", ["usize", "usize", "List<usize>", "List<usize>", "List<K13>"],
+                                                      "Option<PM>", False),
+                 ("PermView", "identity"): ("C13.Perm.identity", ["usize"], "PP", False),
+                 ("SpMat", "zero"): ("Sp.zero", ["(usize,usize)"], "PM", False)}
+        if key == ("SpMat", "from") and len(e.args) == 1:
+            its, t, ty = self.tr(e.args[0], env)
+            if ty == "PM": return its, t, "PM"                    # `From<CscMatrix<R>>`: the wrapper
+        if key in table and not (key[0] == "SpMat" and self.find_fn("SpMat", key[1]) is not None and key[1] != "zero"):
+            fn_, ptys, rty, mon = table[key]
+            if len(ptys) != len(e.args): return None
+            its, ts = [], []
+            for a, pt in zip(e.args, ptys):
+                i2, t, ty = self.tr(a, env)
+                if not self.compat(pt, resolve_ty(ty)): raise Unsupported(f"argument of type {ty} for `{'::'.join(segs)}` ({pt} expected) (line {line})")
+                its += i2; ts.append(t)
+            if fn_ in ("C13.SpMat.zero", "Sp.zero"):
+                return its, "(" + " ".join([fn_] + ts) + " : C13.SpMat R)", rty
+            return its, "(" + " ".join([fn_] + ts) + ")", rty
+        return None
+
+    def tr_mcall_sp(self, e, env, i1, recv, rty):
+        """method calls of target option `sp13` (None: not handled here)"""
+        line, name, na = e.line, e.name, len(e.args)
+        if rty == "PM":
+            owner = next(iter(self.newtypes), None)
+            if owner is not None and name not in ("nrows", "ncols", "shape", "iter", "nnz", "disassemble", "inner",
+                                                  "into_inner", "clone", "into"):
+                c = self.find_fn(owner, name, None)
+                if c is not None and c.selfk in ("ref", "val"):
+                    i2, t, ty = self.call_user(c, recv, e.args, env, line)
+                    return i1 + i2, t, ty
+            if na == 0:
+                if name in ("nrows", "ncols"): return i1, f"{recv}.{name}", "usize"
+                if name == "shape": return i1, f"(Sp.shape {recv})", "(usize,usize)"
+                if name == "iter": return i1, f"(Sp.iter {recv})", "List<(usize,usize,K13)>"
+                if name == "nnz": return i1, f"(Sp.nnz {recv})", "usize"
+                if name == "disassemble": return i1, f"(Sp.disassemble {recv})", "(List<usize>,List<usize>,List<K13>)"
+                if name in ("clone", "into", "into_inner", "inner"): return i1, recv, rty
+        if rty == "PV" and na == 0:
+            if name == "dim": return i1, f"{recv}.dim", "usize"
+            if name in ("into_inner", "inner"): return i1, f"(Sp.vec_inner {recv})", "PM"
+        if rty == "PP":
+            if name == "at" and na == 1:
+                i2, a, ta = self.tr(e.args[0], env)
+                if ta not in INT64: raise Unsupported(f"`.at` with an argument of type {ta} (line {line})")
+                r = self.fresh()
+                return i1 + i2 + [("bind", r, f"C13.Perm.at {recv} {a}")], r, "usize"
+            if name == "dim" and na == 0: return i1, f"{recv}.dim", "usize"
+        if rty == "RG":
+            if name == "contains" and na == 1:
+                i2, a, ta = self.tr(e.args[0], env)
+                if ta not in INT64: raise Unsupported(f"`.contains` with an argument of type {ta} (line {line})")
+                return i1 + i2, f"(Sp.range_contains {recv} {a})", "bool"
+        if rty == "K13" and na == 0:
+            if name == "is_zero": return i1, f"(decide ({recv} = 0))", "bool"
+            if name == "clone": return i1, recv, rty
+        if rty.startswith("List<"):
+            elt = rty[5:-1]
+            if name == "len" and na == 0: return i1, f"(List.length {recv})", "usize"
+            if name == "flat_map" and na == 1 and e.args[0].kind == "closure":
+                cname, cargs, cret, mon = self.closure_def(e.args[0], [elt], env)
+                if mon or not cret.startswith("List<"): raise Unsupported(f"`flat_map` closure returning {cret} / panicking (line {line})")
+                return i1, "(List.flatMap (" + " ".join([cname] + cargs) + f") {recv})", cret
+            if name == "pop" and na == 0:
+                root = self.vec_place(e.recv, env)
+                if root is None: raise Unsupported(f"`pop` on this kind of place (line {line})")
+                ln = env[root][0]
+                r = self.fresh()
+                return i1 + [("let", r, f"List.getLast? {ln}"), ("let", ln, f"List.dropLast {ln}")], r, f"Option<{elt}>"
+        if rty.startswith("(") and rty != "()" and name == "map" and na == 1 and e.args[0].kind == "closure":
+            rx = e.recv
+            while rx.kind == "paren": rx = rx.e
+            comps = split_top(rty[1:-1])
+            if rx.kind == "tuple" and getattr(rx, "array", False) and len(set(comps)) == 1:
+                # `[a, b, c, d].map(|x| …)`: componentwise
+                cname, cargs, cret, mon = self.closure_def(e.args[0], [comps[0]], env)
+                if mon: raise Unsupported(f"array `map` with a closure that can panic (line {line})")
+                n_ = len(comps)
+                if not re.fullmatch(r"[\w.]+", recv):
+                    r0 = self.fresh(); i1 = i1 + [("let", r0, recv)]; recv = r0
+                call = " ".join([cname] + cargs)
+                return i1, "(" + ", ".join(f"{call} {self.tuple_proj(recv, k_, n_)}" for k_ in range(n_)) + ")", \
+                    "(" + ",".join([cret] * n_) + ")"
+        if rty == "bool" and name == "then" and na == 1 and e.args[0].kind == "closure" and not e.args[0].params:
+            body = self.tr_block(N("block", stmts=[], tail=e.args[0].body), env, ("value", None))
+            ty = self.last_ty
+            if self.simple(body): return i1, f"(if {recv} then some {body.final[1]} else none)", f"Option<{ty}>"
+            r = self.fresh()
+            th = Code(body.items, ("pure", f"(some {body.final[1]})")) if body.final[0] == "pure" and isinstance(body.final[1], str) else None
+            if th is None: raise Unsupported(f"`.then` with a closure of this form (line {line})")
+            return i1 + [("bind", r, IfTerm(recv, th, Code([], ("pure", "none"))))], r, f"Option<{ty}>"
+        if rty.startswith("FN<"):
+            return None
+        return None
 
     def tr_mcall_csc(self, e, env, i1, recv, rty):
         """method calls on the CSC types of target option `csc` (None: not one of them)"""
@@ -4005,7 +4353,20 @@ class Translator:
 
     def tr_mcall(self, e, env):
         line, name = e.line, e.name
+        if self.cfg.get("sp13") and name == "contains" and len(e.args) == 1:
+            rx = e.recv
+            while rx.kind == "paren": rx = rx.e
+            if rx.kind == "range":
+                i0, lo, tl = self.tr(rx.lo, env)
+                i1, hi, th = self.tr(rx.hi, env)
+                i2, a, ta = self.tr(e.args[0], env)
+                if not (tl in INT64 and th in INT64 and ta in INT64): raise Unsupported(f"`(a..b).contains` on {tl}, {th}, {ta} (line {line})")
+                return i0 + i1 + i2, f"(Sp.range_contains ({lo}, {hi}) {a})", "bool"
         i1, recv, rty = self.tr(e.recv, env)
+        if self.cfg.get("sp13"):
+            rty = resolve_ty(rty)
+            r_ = self.tr_mcall_sp(e, env, i1, recv, rty)
+            if r_ is not None: return r_
         if rty in self.types:
             argt = [self.tr(a, dict(env), dry=True)[2] for a in e.args]
             c = self.find_fn(rty, name, argt)
@@ -4110,7 +4471,7 @@ class Translator:
         if rty.startswith("List<") and name == "collect" and not e.args and self.cfg.get("hom"):
             return i1, recv, rty
         if rty.startswith("List<") and name == "enumerate" and not e.args:
-            return i1, f"(Iter.enumerate {recv})", f"List<(usize,{rty[5:-1]})>"
+            return i1, f"({self.cfg.get('enumerate_fn', 'Iter.enumerate')} {recv})", f"List<(usize,{rty[5:-1]})>"
         if rty.startswith("List<"):
             elt = rty[5:-1]
             if name == "count" and not e.args: return i1, f"(List.length {recv})", "usize"
@@ -4213,7 +4574,7 @@ def generate(src_text, src_label, target="bitseq"):
     texts = src_text if isinstance(src_text, list) else [src_text]
     toks, allids, mod = None, set(), None
     Parser.const_generics = bool(cfg.get("const_generics"))
-    Parser.turbofish = bool(cfg.get("csc"))
+    Parser.turbofish = bool(cfg.get("csc") or cfg.get("sp13"))
     srcs = cfg["src"] if isinstance(cfg["src"], list) else [cfg["src"]]
     for k_, text in enumerate(texts):
         toks = tokenize(text)
@@ -4247,6 +4608,11 @@ def generate(src_text, src_label, target="bitseq"):
     for name in struct_order(sorted(mod.structs)):
         fs = mod.structs[name]
         eo = cfg.get("eops")
+        if name in cfg.get("newtype_structs", {}):
+            mod.notes.append(f"struct {name}: a wrapper of its field `{cfg['newtype_structs'][name]}` (same Lean type)")
+            tr.types.discard(name)
+            tr.newtypes.add(name)
+            continue
         if cfg.get("hom") and all(re.fullmatch(r"PhantomData<.*>", t) for _, t in fs):
             mod.notes.append(f"struct {name}: only `PhantomData` fields (its functions are associated functions)")
             continue
